@@ -3,7 +3,7 @@ NEXT TraceNext
 CONSTANTS
   MaxErr = 2
   Strict = FALSE
-INVARIANT Inv_TraceAccepted
+INVARIANT Inv_FrontEndTraceAccepted
 INVARIANT Inv_AcceptedXorReport
 INVARIANT Inv_RejectedExits1
 INVARIANT Inv_ExitCodeFollowsStages
